@@ -155,5 +155,9 @@ CORPUS = [
     "package t:p;\ninterface i {\n  flags fl1 { a, b, c, d, e, f, g, h, i }\n  f0: func(x: fl1, y: option<option<string>>, z: result<_, string>) -> result<list<string>, fl1>;\n}\n",
     "package t:p;\ninterface i {\n  resource res;\n  f0: func(x: borrow<res>, y: res, z: list<own<res>>) -> option<res>;\n  f1: func(x: future<string>, y: stream<u8>, z: error-context) -> stream;\n}\n",
     "package t:p;\ninterface i {\n  f0: func(x: list<string, 3>, y: map<string, list<u32>>) -> list<u64, 17>;\n}\n",
+    # results exactly at / around the flat limits (1, 4, 16) — the async paths decide flat-vs-pointer on them
+    "package t:p;\ninterface i {\n  f0: func() -> tuple<%s>;\n  f1: func() -> tuple<%s>;\n  f2: func() -> tuple<%s>;\n}\n" % (", ".join(["u32"] * 16), ", ".join(["u32"] * 15), ", ".join(["u32"] * 17)),
+    "package t:p;\ninterface i {\n  f0: func() -> tuple<%s>;\n  f1: func(a: u8) -> tuple<u32, u64, f32, f64>;\n  f2: func() -> tuple<u32, u64, f32, f64, u8>;\n  f3: func() -> tuple<u32, u64, f32>;\n}\n" % ", ".join(["string"] * 8),
+    "package t:p;\ninterface i {\n  f0: func(a: string, b: string) -> tuple<u32, u32>;\n  f1: func(a: tuple<u32, u32, u32, u32>) -> u32;\n  f2: func(a: tuple<u32, u32, u32, u32, u32>) -> string;\n}\n",
     "package t:p;\ninterface i {\n  f0: func() -> error-context;\n  f1: func() -> list<string, 3>;\n  f2: func() -> option<error-context>;\n}\n",
 ]
